@@ -27,6 +27,7 @@ import (
 type c36Outcome struct {
 	name      string
 	unstaking bool
+	stakeErr  bool // the chain read of the eligible stake fails (RPC fault)
 	invalid   bool
 	signErr   bool
 	active    int  // members 1..active announced readiness
@@ -43,6 +44,15 @@ var c36Outcomes = []c36Outcome{
 	{name: "E", signErr: true, active: heartbeatSigningMinimumActiveMembers - 1, listed: true},
 	{name: "U", unstaking: true, active: heartbeatSigningMinimumActiveMembers - 1, listed: true},
 	{name: "I", invalid: true, active: heartbeatSigningMinimumActiveMembers - 1, listed: true},
+	// the operator is unstaking and, on top of that, its stake cannot be read
+	{name: "Uf", unstaking: true, stakeErr: true, active: heartbeatSigningMinimumActiveMembers - 1, listed: true},
+}
+
+// c36FailingStake is the local chain with a failing eligible-stake read.
+type c36FailingStake struct{ *localChain }
+
+func (c c36FailingStake) EligibleStake(chain.Address) (*big.Int, error) {
+	return nil, fmt.Errorf("eligible stake cannot be read")
 }
 
 func (o c36Outcome) low() bool {
@@ -154,8 +164,12 @@ func (n *c36Node) step(s c36Step) c36StepResult {
 	signer := &c36Signer{o: o}
 	claimer := &c36Claimer{}
 	startBlock := uint64(10)
+	var hc Chain = lc
+	if o.stakeErr {
+		hc = c36FailingStake{lc}
+	}
 	action := newHeartbeatAction(
-		&testutils.MockLogger{}, lc, c36WalletKeys[s.W], signer, proposal, n.counter, claimer,
+		&testutils.MockLogger{}, hc, c36WalletKeys[s.W], signer, proposal, n.counter, claimer,
 		startBlock, startBlock+heartbeatTotalProposalValidityBlocks,
 		func(ctx context.Context, blockHeight uint64) error { return nil },
 	)
@@ -379,7 +393,7 @@ func TestVerifC36(t *testing.T) {
 			prefixes = append(prefixes, []c36Step{a, b})
 		}
 	}
-	r.Sample(map[string]any{"history": c36HistString([]c36Step{{0, 2}, {1, 2}, {0, 2}, {0, 4}, {0, 2}}), "meaning": "wallet index + outcome per heartbeat; S70/S100 success, L69 low activity (31 inactive listed), L69e low activity with empty inactive set, E signing error, U unstaking, I invalid proposal"})
+	r.Sample(map[string]any{"history": c36HistString([]c36Step{{0, 2}, {1, 2}, {0, 2}, {0, 4}, {0, 2}}), "meaning": "wallet index + outcome per heartbeat; S70/S100 success, L69 low activity (31 inactive listed), L69e low activity with empty inactive set, E signing error, U unstaking, I invalid proposal, Uf unstaking and the stake read fails"})
 	vrep.Parallel(vrep.Workers(), len(prefixes), func(i int) {
 		p := prefixes[i]
 		var rec func(h []c36Step)
